@@ -184,6 +184,12 @@ class World:
         if q < 0.9:
             v = rng.choice([b'{"SECoP": "discover"', b'{SECoP: discover}', b'discover', b'*IDN?\n', b'{"SECoP": "discover"}}', b'NaN', b'\x00'])
             return 'broken-json', v, False
+        if q < 0.93:
+            # oversized and deeply nested: whatever part of it the responder reads, it is not a request (and no parser
+            # failure - a recursion limit included - may end the responder)
+            v = rng.choice([b'[' * 3000, b'{"a":' * 2500, b'[' * 1500 + b']' * 1500, b'{"SECoP": "discover", "x": ' + b'[' * 4000,
+                            b'[' * 20000, b'{"SECoP":' * 3000 + b'"discover"' + b'}' * 3000])
+            return 'oversized-nested', v, False
         if q < 0.95:
             return 'oversized-garbage', bytes(rng.randrange(32, 127) for _ in range(rng.randint(1025, 3000))), False
         return 'oversized-request', b'{"SECoP": "discover", "pad": "' + b'x' * rng.randint(1100, 2000) + b'"}', None   # truncated by recv: either way
